@@ -8,7 +8,7 @@
     Other concurrent requests on the reply topic are the foreign notifications of the stream. *)
 From WM Require Import Base.Prelude Message.Model Handler.RouterHandle
   ReqReply.Listen ReqReply.Processed ReqReply.ListenProofs ReqReply.ProcessedProofs ReqReply.Compose
-  ReqReply.Caller ReqReply.CallerProofs.
+  ReqReply.Caller ReqReply.CallerProofs ReqReply.Marshaler ReqReply.MarshalerProofs.
 
 (** every reply a caller receives is the final timeout reply or was built from a notification
     carrying the caller's own operation id - for every stream, caller behaviour and schedule *)
@@ -51,9 +51,9 @@ Proof. exact reply_content. Qed.
 
 Theorem C18_reply_content_end_to_end : forall dec enc c stream ls r,
   (forall x p, enc x = Some p -> dec p = Some x) ->
-  In r (got (lrun dec c (linit stream) ls)) ->
+  In r (got (lrun (unm_json dec) c (linit stream) ls)) ->
   is_final r = true \/
-  exists n, In n stream /\ n_op n = opid c /\ r = reply_of dec n
+  exists n, In n stream /\ n_op n = opid c /\ r = reply_of (unm_json dec) n
     /\ forall pc i, In (PPublish n) (fst (on_processed enc pc i)) ->
          r = ROwn (p_res i) (p_err i) (p_nid i) /\ p_op i = opid c.
 Proof. exact reply_end_to_end. Qed.
@@ -224,6 +224,40 @@ Print Assumptions C18_product_independent.
 Print Assumptions C18_product_replies_do_not_cross.
 Print Assumptions C18_product_safe.
 Print Assumptions C18_product_terminates.
+(** ** custom marshalers, as coded.  The listener theorems above hold for ANY UnmarshalReply ([dec] is
+    the whole unmarshaler; [unm_json] is the JSON instance): the operation-id filter comes first, so
+    a foreign notification never reaches the unmarshaler's verdict.  On the handler side: *)
+
+(** whatever operation id MarshalReply wrote or dropped, the backend stamps the command's over it *)
+Theorem C18_custom_marshaler_op_id_stamped : forall cmarshal modify c i n,
+  has_modify c = false ->
+  In (PPublish n) (fst (on_processed_custom cmarshal modify c i)) ->
+  p_op i <> 0%N /\ exists m, cmarshal (p_res i) (p_err i) = Some m /\ n = stamp_op m (p_op i).
+Proof. exact custom_marshaler_op_id_stamped. Qed.
+
+(** ModifyNotificationMessage runs AFTER the stamping (so it is the one place that can drop the id) *)
+Theorem C18_custom_modify_applied_after_stamp : forall cmarshal modify c i n,
+  has_modify c = true ->
+  In (PPublish n) (fst (on_processed_custom cmarshal modify c i)) ->
+  exists m, cmarshal (p_res i) (p_err i) = Some m /\ modify (stamp_op m (p_op i)) = Some n.
+Proof. exact custom_modify_applied_after_stamp. Qed.
+
+Theorem C18_custom_json_instance : forall enc c i,
+  has_modify c = false \/ p_modify_ok i = true ->
+  on_processed_custom (cmarshal_json enc (p_nid i)) (fun n => if p_modify_ok i then Some n else None) c i
+  = on_processed enc c i.
+Proof. exact custom_json_instance. Qed.
+
+(** ... and a notification that reaches the topic without the requester's id is lost: acked, never handed over *)
+Theorem C18_reply_without_op_id_is_lost : forall dec c stream ls r,
+  (forall n, In n stream -> n_op n <> opid c) ->
+  In r (got (lrun dec c (linit stream) ls)) -> is_final r = true.
+Proof. exact reply_without_op_id_is_lost. Qed.
+
+Print Assumptions C18_custom_marshaler_op_id_stamped.
+Print Assumptions C18_custom_modify_applied_after_stamp.
+Print Assumptions C18_custom_json_instance.
+Print Assumptions C18_reply_without_op_id_is_lost.
 Print Assumptions C18_only_own_replies.
 Print Assumptions C18_replies_do_not_cross.
 Print Assumptions C18_listener_safe.
@@ -268,7 +302,7 @@ Proof. reflexivity. Qed.
 
 (** non-vacuity: foreign and malformed notifications between two own ones; the caller drains *)
 Example C18_witness_filter :
-  let dec := fun p : N => if N.eqb p 9 then None else Some p in
+  let dec := unm_json (fun p : N => if N.eqb p 9 then None else Some p) in
   let stream := [Notif 1 8 1 false 0; Notif 2 7 9 false 0; Notif 3 0 1 false 0; Notif 4 7 4 true 5] in
   let s := lrun dec (d10_cfg true) (linit stream)
              [LRecv; LRecv; LSend; CRead; LRecv; LRecv; LSend; CRead; ECancel; LCtx; LSend; CRead;
